@@ -277,7 +277,59 @@ def rule_usable_condition(ctx):
     ctx.covered('R07.8', 'usable-archive decision: C keeps the archive iff nblobs>0 (warning) else error; Python empty test is the complement', n, floor=3)
 
 
+def rule_python_messages(ctx):
+    """R07.9: when an append is refused (unrecoverable tail, file cannot be opened) the C library only queues a message.
+    Every branch of Simulation.save_to_file that calls one of the C save functions has to drain the queue
+    (process_messages) afterwards, in its own or an enclosing statement list - otherwise the snapshot is lost silently."""
+    import ast
+    from .. import pyfront
+    db = pyfront.pydb()
+    tree = db.files['rebound/simulation.py']
+    fn = None
+    for node in ast.walk(tree):
+        if isinstance(node, ast.ClassDef) and node.name == 'Simulation':
+            for m_ in node.body:
+                if isinstance(m_, ast.FunctionDef) and m_.name == 'save_to_file':
+                    fn = m_
+    anchor(fn is not None, 'Simulation.save_to_file')
+    # C functions that (transitively) queue a message
+    n = 0
+    samples = []
+
+    def is_pm(st):
+        return any(isinstance(x, ast.Call) and isinstance(x.func, ast.Attribute) and x.func.attr == 'process_messages' for x in ast.walk(st))
+
+    def scan(stmts, followed):
+        """followed: a process_messages call comes later in an enclosing list"""
+        nonlocal n
+        for i, st in enumerate(stmts):
+            later = followed or any(_unconditional_pm(s2) for s2 in stmts[i + 1:])
+            if isinstance(st, ast.If):
+                scan(st.body, later)
+                scan(st.orelse, later)
+                continue
+            if isinstance(st, (ast.For, ast.While, ast.With, ast.Try)):
+                scan(getattr(st, 'body', []), later)
+                continue
+            for x in ast.walk(st):
+                if isinstance(x, ast.Call) and isinstance(x.func, ast.Attribute) and pyfront._name(x.func.value) == 'clibrebound' and x.func.attr.startswith('reb_simulation_save_to_file'):
+                    n += 1
+                    where = 'rebound/simulation.py:%d Simulation.save_to_file' % x.lineno
+                    if not later:
+                        ctx.report('R07.9', 'save_to_file:%s:messages' % x.func.attr, where,
+                                   '%s is called but the message queue is not processed on this path: "No snapshot has been saved" / "Can not open file." never reach the user and the snapshot is lost silently' % x.func.attr)
+                    else:
+                        samples.append('%s: %s followed by process_messages()' % (where, x.func.attr))
+
+    def _unconditional_pm(st):
+        # a later statement counts only if it is executed whenever control reaches the end of this list
+        return not isinstance(st, (ast.If, ast.For, ast.While, ast.Try, ast.With)) and is_pm(st)
+    scan(fn.body, False)
+    ctx.covered('R07.9', 'Python save_to_file: every call of a C save function is followed by process_messages on its path', n, floor=4, samples=samples[:4])
+
+
 def run(ctx):
+    rule_python_messages(ctx)
     rule_ownership(ctx)
     rule_error_path_state(ctx)
     rule_io_discipline(ctx)
